@@ -14,14 +14,14 @@ import (
 // secp256k1 keys are drawn until the 20-byte address (RIPEMD160(SHA256(pubkey))) has the wanted
 // pattern, so every validator is one a user could really create.
 const (
-	clsPlain    = "plain"      // no 0x2c, no 0x00
-	cls2cMid    = "2c-mid"     // exactly one 0x2c, at an interior position
-	cls2cStart  = "2c-start"   // exactly one 0x2c, first byte
-	cls2cEnd    = "2c-end"     // exactly one 0x2c, last byte
-	cls2cTwice  = "2c-twice"   // exactly two 0x2c, not adjacent
+	clsPlain    = "plain"       // no 0x2c, no 0x00
+	cls2cMid    = "2c-mid"      // exactly one 0x2c, at an interior position
+	cls2cStart  = "2c-start"    // exactly one 0x2c, first byte
+	cls2cEnd    = "2c-end"      // exactly one 0x2c, last byte
+	cls2cTwice  = "2c-twice"    // exactly two 0x2c, not adjacent
 	cls2cAdj    = "2c-adjacent" // two adjacent 0x2c (an empty piece when split on ',')
-	clsZero     = "zero"       // contains 0x00, no 0x2c
-	clsNearMiss = "near-2c"    // contains 0x2b or 0x2d, no 0x2c, no 0x00
+	clsZero     = "zero"        // contains 0x00, no 0x2c
+	clsNearMiss = "near-2c"     // contains 0x2b or 0x2d, no 0x2c, no 0x00
 )
 
 var allClasses = []string{clsPlain, cls2cMid, cls2cStart, cls2cEnd, cls2cTwice, cls2cAdj, clsZero, clsNearMiss}
